@@ -495,6 +495,77 @@ func exhaustive(res *core.Result, limit, maxLen, shard, shards int) {
 	rec()
 }
 
+// sparseLookups: in the router lookups come one at a time, for the destination of the frame at hand, between
+// table updates - not for every destination after every update as in the runs above. Random operations over a
+// small universe (8 destinations, 4 relays; 1..3-hop gossip routes, peer links, removals, cleaning); after an
+// operation at most one destination is looked up (often the one looked up last time), and judged like always.
+func sparseLookups(res *core.Result, r *rand.Rand, nops int) {
+	limit := 2 + r.IntN(6)
+	cfg := smallConfig(limit)
+	desc := fmt.Sprintf("sparse-lookups/limit=%d", limit)
+	c := &checker{res: res, tbl: m.NewRoutingTable(cfg), cfg: cfg, desc: desc, limit: func(netip.Prefix) int { return limit }}
+	dsts := []netip.Addr{d1, d2, d3, ip("fd12:1::3"), ip("fd12:1::4"), ip("fd13::2"), ip("fd12:2::1"), ip("fd13::3")}
+	relays := []netip.Addr{p1, p2, p3, ip("fd24::1")}
+	last := dsts[0]
+	lookups := 0
+	for i := 0; i < nops && !c.fail; i++ {
+		var o op
+		switch k := r.IntN(100); {
+		case k < 70:
+			n := 1 + r.IntN(3)
+			rs := make([]netip.Addr, 0, n)
+			for _, j := range r.Perm(len(relays))[:n] {
+				rs = append(rs, relays[j])
+			}
+			delays := make([]uint16, n+1)
+			for j := range delays {
+				delays[j] = uint16(1 + r.IntN(60))
+			}
+			d := dsts[r.IntN(len(dsts))]
+			o = gossip(fmt.Sprintf("g(%s via %d relays, %v)", d, n, delays), d, delays, rs...)
+		case k < 78:
+			x := relays[r.IntN(len(relays))]
+			o = op{kind: opAdd, name: "peerlink(" + x.String() + ")", entry: m.RoutingTableEntry{DstIP: x, NextHop: x, Source: m.RouteSourcePeer}}
+		case k < 88:
+			o = op{kind: opRemoveNextHop, name: "rmnexthop", router: relays[r.IntN(len(relays))]}
+		case k < 95:
+			o = op{kind: opRemoveDisconnected, name: "disc", router: relays[r.IntN(len(relays))]}
+		default:
+			o = op{kind: opClean, name: "clean"}
+		}
+		c.apply(o, false)
+		if c.fail || r.IntN(3) == 0 {
+			continue
+		}
+		dst := last
+		if r.IntN(3) == 0 {
+			dst = dsts[r.IntN(len(dsts))]
+		}
+		last = dst
+		es := c.tbl.VerifEntries()
+		var list []*m.RoutingTableEntry
+		var peer *m.RoutingTableEntry
+		for j := range es {
+			if es[j].DstIP == dst {
+				list = append(list, &es[j])
+				if es[j].Source == m.RouteSourcePeer {
+					peer = &es[j]
+				}
+			}
+		}
+		if len(list) > 0 {
+			c.trace = append(c.trace, "lookup("+dst.String()+")")
+			c.lookupCheck(dst, list, peer)
+			lookups++
+		}
+	}
+	if !c.fail {
+		res.Count("sparse_lookup_runs", 1)
+		res.Count("sparse_lookups_checked", int64(lookups))
+		res.CaseN(fmt.Sprintf("%s:%x", desc, r.Uint64()), true, int64(nops))
+	}
+}
+
 // ---- large seeded universes under the real prefix configs.
 
 func realConfig(r *rand.Rand, kind int) (m.RoutingTableConfig, netip.Addr, string) {
@@ -1170,6 +1241,9 @@ func run(c *core.Ctx) {
 		r := core.RNG(fmt.Sprintf("c11/large/%d", w))
 		for i := w; i < nLarge; i += W {
 			largeRun(res, r, i%3, c.Q(3000, 10000))
+		}
+		for i := 0; i < c.Q(3, 60); i++ {
+			sparseLookups(res, r, c.Q(1000, 5000))
 		}
 	})
 	res.Sample(map[string]any{"config": "real GetRoutablePrefixesFor(geo-marked|roaming|organization router)", "destinations": 1000, "peers": 12, "relays": 30})
